@@ -163,3 +163,22 @@ func TestWireSelfJSON(t *testing.T) {
 		}
 	})
 }
+
+func TestWireSelfRFC3339(t *testing.T) {
+	rapid.Check(t, func(rt *rapid.T) {
+		c := genC22(rt)
+		for _, e := range c.Events {
+			if e.Format != "rfc3339" {
+				continue
+			}
+			txt := c22Text(e)
+			tm, err := time.Parse(time.RFC3339Nano, txt)
+			if err != nil {
+				rt.Fatalf("%q does not parse: %v", txt, err)
+			}
+			if tm.Unix() != e.Sec || int64(tm.Nanosecond()) != e.Nsec {
+				rt.Fatalf("%q parses to %d.%09d, want %d.%09d", txt, tm.Unix(), tm.Nanosecond(), e.Sec, e.Nsec)
+			}
+		}
+	})
+}
